@@ -136,7 +136,7 @@ def run(ctx):
     ut, u1, u2, uv1, uv2 = 970, 971, 972, 973, 974
     add_group('unknown-type-used-twice', [('P', u1, [units.var(uv1, 'v', ('n', ut)), units.var(975, 'v', 'i')], [('a', 975, [])]),
                                           ('F', u2, [units.var(uv2, 'v', ('n', ut))], []), ('E', 976, [977], None)], 'unknown-type')
-    for _ in range(3 if ctx.quick() else 40):
+    for _ in range(3 if ctx.quick() else 240):
         decls, ns = units.gen_valid(rng, size=rng.choice([1, 2]))
         add_group('random-valid', decls, None)
         ss = units.plant_all(decls, ns, rng)
